@@ -36,6 +36,14 @@ def corpus(tier, seed):
                    update_poolsize=False, checkpoint_interval=1)
     mid["extra_by_proc"] = {"0": {"kill_after_mid_ckpt": True}}
     specs.append(mid)
+    # a checkpoint written by checkpoint_on_training when the flow is retrained while the pool still holds
+    # samples (training_frequency): the pool is invalidated (left-over indices), then a kill before the next
+    # periodic checkpoint; the resumed sampler must not resurrect the stale pool
+    # (time-triggered: with iteration-triggered checkpoints the call inside train_proposal is never due)
+    stale = std_spec("gauss2", s + 91, 50, checkpoint_on_training=True, training_frequency=20, cooldown=20,
+                     checkpoint_on_iteration=False, checkpoint_interval=0.05)
+    stale["extra_by_proc"] = {"0": {"kill_after_stale_ckpt": True}}
+    specs.append(stale)
     if tier == "thorough":
         j = len(specs)
         import random
